@@ -279,15 +279,37 @@ class Probe(object):
 
 
 def make_fn(argnames, kind="int", logfile=None, loglist=None, ctl=None, hidden=None,
-            name="probe", defaults=None):
-    """A real function with an explicit signature (for fn_args inference)."""
+            name="probe", defaults=None, kwonly=0, wrapped=False):
+    """A real function with an explicit signature (for fn_args inference).
+
+    kwonly=k makes the last k parameters keyword-only (def f(a, *, b, c)).  wrapped=True returns a functools.wraps-decorated
+    wrapper around such a function: the WRAPPER is the probe (it logs the call and computes the value), the function
+    underneath computes the same value but logs nothing - whoever calls the undecorated function instead of the callable
+    it was given leaves no trace in the call log."""
+    import functools
     defaults = defaults or {}
-    sig = ", ".join("%s=%r" % (a, defaults[a]) if a in defaults else a for a in argnames)
+    parts = ["%s=%r" % (a, defaults[a]) if a in defaults else a for a in argnames]
+    if kwonly:
+        parts = parts[:len(parts) - kwonly] + ["*"] + parts[len(parts) - kwonly:]
+    sig = ", ".join(parts)
     body = ", ".join("%s=%s" % (a, a) for a in argnames)
     src = "def %s(%s):\n    return _pc(dict(%s), _kind, _logfile, _loglist, _ctl, _hidden)\n" % (
         name, sig, body)
-    ns = {"_pc": probe_call, "_kind": kind, "_logfile": logfile, "_loglist": loglist,
+    ns = {"_pc": probe_call, "_kind": kind, "_logfile": None if wrapped else logfile, "_loglist": None if wrapped else loglist,
           "_ctl": ctl, "_hidden": tuple(hidden) if hidden else None,
           "__name__": globals().get("__name__", "probe_dyn")}
     exec(src, ns)
-    return ns[name]
+    inner = ns[name]
+    if not wrapped:
+        return inner
+    hid = tuple(hidden) if hidden else None
+    names_ = list(argnames)
+
+    @functools.wraps(inner)
+    def wrapper(*args, **kwargs):
+        kw = dict(zip(names_, args))
+        kw.update(kwargs)
+        for a_, d_ in defaults.items():
+            kw.setdefault(a_, d_)
+        return probe_call(kw, kind, logfile, loglist, ctl, hid)
+    return wrapper
